@@ -1111,6 +1111,10 @@ def main(tier, replay=None):
     if replay:
         return do_replay(run, replay)
     proof_ok = run.proof_stage()
+    import translate_stage
+    tr_diag = translate_stage.translator_obligation_diag(run, parts=("cavity", "screen"))
+    if tr_diag["status"] != "ok":
+        run.notes.append("translator obligation (cavity energy / screen blocking): " + json.dumps(translate_stage.replay_fields_diag(tr_diag))[:600])
     # second tie: the beam statistics / Twiss getters / aperture mask are re-translated from REPO's source and proved equal to the
     # hand-written models (Gen/StatsGenEquiv.v)
     import translate_stage
@@ -1182,6 +1186,9 @@ def main(tier, replay=None):
     elif tr_stats["status"] != "ok":
         # the source no longer translates to the proved model and none of this run's oracles found a failing input
         run.violation(translate_stage.replay_fields_stats(tr_stats), no_input=True)
+    elif tr_diag["status"] != "ok":
+        # the source no longer translates to the proved model; none of this run's oracles found a failing input
+        run.violation(translate_stage.replay_fields_diag(tr_diag), no_input=True)
     elif not proof_ok:
         run.violation({"kind": "proof", "broken": run.proof_problem}, no_input=True)
     return run.finish("proof")
